@@ -8,6 +8,7 @@ through (`crates/samlang-checker/src/type_system.rs`), function by function:
 * `subst_type` / `subst_fn_type`    (type_system.rs:182-188, 306-330) -> `subst`
 * `solve_type_constraints_internal` (type_system.rs:190-236) -> `solve`
 * `solve_multiple_type_constrains`, `solve_type_constraints` (type_system.rs:243-292)
+* branch joins of `check_if_else` / `check_match` (main_checker.rs:950-967, 986-990) -> `ifChainOk`, `matchArmsOk`
 * `ISourceType::is_the_same_type`   (type_.rs:80-89,141-147,218-227) -> `sameType`
   (used by interface conformance, main_checker.rs:1630,1643, and bound validation, :191)
 
@@ -207,6 +208,22 @@ def solveTypeConstraints (tps : List Nat) (concrete generic : Ty) : Subst × Ty 
   let s := fillPlaceholders tps (solveMultiple tps [(concrete, generic)])
   let g := subst s generic
   (s, g, (meet concrete g).isNone)
+
+/-- Branch-join rule of `check_if_else` (main_checker.rs:950-967) on the list of branch-body types
+`[B1, …, Bn]` of a chain `if c1 {B1} else if c2 {B2} … else {Bn}`: the type of a chain is the type
+of its first block (:966); an `else if` link checks the nested chain's type against `B1` (:956-957),
+a final `else` block checks `Bn` against `B(n-1)` (:961-962). So exactly the adjacent pairs are
+compared, each later one as `lower` against the earlier one as `upper`. -/
+def ifChainOk : List Ty → Bool
+  | [] => true
+  | [_] => true
+  | a :: b :: rest => assignable b a && ifChainOk (b :: rest)
+
+/-- Branch-join rule of `check_match` (main_checker.rs:986-990): the first arm fixes
+`matching_list_type`; every later arm body is checked against it. -/
+def matchArmsOk : List Ty → Bool
+  | [] => true
+  | a :: rest => rest.all (fun b => assignable b a)
 
 /-- Arity gate of a call: `generic_function_type.argument_types.len() != function_arguments.len()`
 (main_checker.rs:766-794 / 416-444 for explicit type arguments). -/
